@@ -124,6 +124,9 @@ func (b *Bytes) Grow(offset int64) error {
 
 // Truncate implements Blob.
 func (b *Bytes) Truncate(size int64) error {
+	if size < 0 {
+		return fmt.Errorf("Truncate size must not be negative: %d", size)
+	}
 	if int64(b.Len()) < size {
 		return nil
 	}
